@@ -2,6 +2,7 @@ import TRV.Model.Drivers
 import TRV.Model.Alloc
 import TRV.Generated.LogicIcmp
 import TRV.Generated.LogicCommon
+import TRV.Proofs.BeNat
 /-!
 # Tie theorems: the ICMP matcher model equals the decision tree REGENERATED from `icmp/icmp_driver.go`
 
@@ -132,7 +133,6 @@ def atoms (s : IcmpSt) (l3 : L3) (l4 : L4) : LogicIcmp.handleProbeLayers.Atoms :
   let e6 := (extractEcho6 info.payload).getD (0, 0)
   let i4 : ICMP4 := match l4 with | .icmp4 i => i | _ => ⟨0, 0, 0, 0, []⟩
   let i6 : ICMP6 := match l4 with | .icmp6 i => i | _ => ⟨0, 0, []⟩
-  let r0 := (u16 i6.payload 0).getD 0
   let r2 := (u16 i6.payload 2).getD 0
   { «parser.GetIPPair().1 == nil» := true
     «parser.GetTransportLayer()» := match l4 with | .icmp4 _ => 1 | .icmp6 _ => 2 | .tcp _ => 3
@@ -161,9 +161,7 @@ def atoms (s : IcmpSt) (l3 : L3) (l4 : L4) : LogicIcmp.handleProbeLayers.Atoms :
     «s.getRTTFromRelSeq(extractEchoRequest(parser.GetICMPInfo().0).0.SeqNumber).0» := 0
     «s.getRTTFromRelSeq(extractEchoRequest(parser.GetICMPInfo().0).0.SeqNumber).1 == nil» := (icmpLookup s e6.2).isSome
     «extractEchoRequest(parser.GetICMPInfo().0).0.SeqNumber» := e6.2
-    «len(parser.ICMP6.Payload)» := if (u16 i6.payload 0).isSome ∧ (u16 i6.payload 2).isSome then 4 else 0
-    «binary.BigEndian.Uint16(parser.ICMP6.Payload[0:2])» := r0
-    «binary.BigEndian.Uint16(parser.ICMP6.Payload[2:4])» := r2
+    «parser.ICMP6.Payload» := i6.payload
     «s.getRTTFromRelSeq(binary.BigEndian.Uint16(parser.ICMP6.Payload[2:4])).0» := 0
     «s.getRTTFromRelSeq(binary.BigEndian.Uint16(parser.ICMP6.Payload[2:4])).1 == nil» := (icmpLookup s r2).isSome }
 
@@ -277,12 +275,26 @@ theorem tie_icmp_handle (s : IcmpSt) (l3 : L3) (l4 : L4) :
             intro h; omega
           · simp [hq, interp_err, kind_bad]
     · by_cases h129 : i.type = 129
-      · rcases h0 : u16 i.payload 0 with _ | id <;> rcases h2 : u16 i.payload 2 with _ | seq <;>
-          simp [handle, LogicIcmp.handleProbeLayers.run, atoms, infoOf, cmp, h129, h0, h2, interp_err, kind_nomatch_local]
-        by_cases hq : id = s.cfg.echoId <;> by_cases ht : l3.src = s.cfg.target <;>
-          simp [hq, ht, interp_err, kind_bad, kind_nomatch]
-        refine finish s _ true seq _ ?_
-        intro h; omega
+      · -- the payload is read at offsets 0 and 2: both reads succeed exactly when 4 octets are present
+        by_cases hl : i.payload.length < 4
+        · have hnone : u16 i.payload 0 = none ∨ u16 i.payload 2 = none := by
+            rcases h2 : u16 i.payload 2 with _ | seq
+            · exact Or.inr rfl
+            · have := Proofs.BeNat.u16_len h2; omega
+          have hlI : ((i.payload.length : Nat) : Int) < 4 := by omega
+          rcases hnone with hn | hn
+          · simp [handle, LogicIcmp.handleProbeLayers.run, atoms, infoOf, cmp, h129, hn, hlI, interp_err, kind_nomatch_local]
+          · rcases h0 : u16 i.payload 0 with _ | id <;>
+              simp [handle, LogicIcmp.handleProbeLayers.run, atoms, infoOf, cmp, h129, h0, hn, hlI, interp_err, kind_nomatch_local]
+        · obtain ⟨id, h0⟩ := Proofs.BeNat.u16_some_of_len (b := i.payload) (k := 0) (by omega)
+          obtain ⟨seq, h2⟩ := Proofs.BeNat.u16_some_of_len (b := i.payload) (k := 2) (by omega)
+          have e0 : Logic.be (i.payload.take 2) 2 = id := by simpa using Proofs.BeNat.be16_of_u16 h0
+          have e2 : Logic.be ((i.payload.drop 2).take 2) 2 = seq := by simpa using Proofs.BeNat.be16_of_u16 h2
+          have hl' : ¬ (((i.payload.length : Nat) : Int) < 4) := by omega
+          by_cases hq : id = s.cfg.echoId <;> by_cases ht : l3.src = s.cfg.target <;>
+            simp [handle, LogicIcmp.handleProbeLayers.run, atoms, infoOf, cmp, e0, e2, h129, h0, h2, hl', hq, ht, interp_err, kind_bad, kind_nomatch, kind_nomatch_local]
+          refine finish s _ true seq _ ?_
+          intro h; omega
       · simp [handle, LogicIcmp.handleProbeLayers.run, atoms, infoOf, cmp, h3, h129, interp_err, kind_nomatch_local]
 
 
